@@ -8,7 +8,7 @@ import subprocess
 import sys
 
 ROOT = "/verif"
-EXTRA = {"C01": ["C07"], "C02": ["C06"], "C03": ["C07"], "C05": ["C04"], "C07": ["C01"], "C08": ["C02"], "C06": ["C02"],
+EXTRA = {"C01": ["C07"], "C02": ["C06"], "C03": ["C07"], "C05": ["C04", "C06"], "C07": ["C01"], "C08": ["C02"], "C06": ["C02"],
          "C10": ["C11"], "C15": []}
 
 
